@@ -66,10 +66,10 @@ Proof.
   destruct (nth_error (emitters st) j) as [m|]; [|discriminate].
   destruct (mnew m) as [|[|[|[|?]]]].
   - inversion E; subst; reflexivity.
-  - otau_inv E. cbn. apply (take_blk_subs _ _ _ E).
-  - pose proof (lookup_subs st (mty m)) as Hl. destruct (lookup st (mty m)) as [st1 n]. cbn in Hl.
-    destruct (nth_error (nodes st1) n) as [nd|]; [|discriminate].
-    destruct (holder nd); [discriminate|]. inversion E; subst. cbn. exact Hl.
+  - destruct (with_node st (mty m)) as [[st1 n]|] eqn:Ew; [|discriminate]. inversion E; subst. cbn.
+    apply (with_node_subs _ _ _ _ Ew).
+  - destruct (nth_error (nodes st) (mnode m)) as [nd|]; [|discriminate].
+    destruct (holder nd); [discriminate|]. inversion E; subst. reflexivity.
   - inversion E; subst; reflexivity.
   - discriminate.
 Qed.
@@ -82,7 +82,7 @@ Proof.
   - destruct (Nat.eqb (mnew m) 4); inversion E; subst; reflexivity.
   - destruct (mclosed m); inversion E; subst; reflexivity.
   - destruct (nth_error (nodes st) (mnode m)); inversion E; subst; reflexivity.
-  - otau_inv E. cbn. apply (take_blk_subs _ _ _ E).
+  - inversion E; subst; reflexivity.
   - otau_inv E. cbn. apply (try_drop_subs _ _ _ E).
   - inversion E; subst; reflexivity.
   - discriminate.
@@ -105,12 +105,12 @@ Proof.
   - destruct (styps c) as [tys|] eqn:Et; inversion E; subst; cbn; (apply Forall_upd; [exact H|]); loc_sub Ec.
     + destruct tys; loc_auto.
     + loc_auto.
-  - otau_inv E. cbn. rewrite (take_blk_subs _ _ _ E). apply Forall_upd; [exact H|]. loc_sub Ec. loc_auto.
+  - destruct (styps c) as [tys|] eqn:Et; [|discriminate]. destruct (nth_error tys i) as [ty|]; [|discriminate].
+    destruct (with_node st ty) as [[st1 n]|] eqn:Ew; [|discriminate]. inversion E; subst. cbn.
+    rewrite (with_node_subs _ _ _ _ Ew). apply Forall_upd; [exact H|]. loc_sub Ec. loc_auto.
   - destruct (styps c) as [tys|] eqn:Et; [|discriminate].
-    destruct (nth_error tys i) as [ty|]; [|discriminate].
-    pose proof (lookup_subs st ty) as Hl. destruct (lookup st ty) as [st1 n]. cbn in Hl.
-    destruct (nth_error (nodes st1) n) as [nd|]; [|discriminate].
-    destruct (holder nd); [discriminate|]. inversion E; subst. cbn. rewrite Hl.
+    destruct (nth_error (nodes st) n) as [nd|]; [|discriminate].
+    destruct (holder nd); [discriminate|]. inversion E; subst. cbn.
     assert (Hk : cpc c = K0).
     { pose proof (Forall_nth_error _ _ _ _ H Ec) as [_ [P2 _]].
       destruct (cpc c) eqn:Ek; try reflexivity; exfalso;
@@ -176,7 +176,7 @@ Proof.
     rewrite Ek in *. unfold knext.
     destruct ((match remove_swap s (sinks nd) with [] => true | _ :: _ => false end) && Nat.eqb (nem nd) 0);
       [|destruct (Nat.ltb (S i) (length (snodes H0)))]; loc_auto.
-  - otau_inv E. cbn. rewrite (take_blk_subs _ _ _ E). apply Forall_upd; [exact H|]. loc_sub Ec. rewrite Ek in *. loc_auto.
+  - inversion E; subst. cbn. apply Forall_upd; [exact H|]. loc_sub Ec. rewrite Ek in *. loc_auto.
   - destruct (nth_error (snodes c) i) as [n|]; [|discriminate].
     destruct (nth_error (nodes st) n) as [nd|]; [|discriminate].
     otau_inv E. cbn. rewrite (try_drop_subs _ _ _ E). apply Forall_upd; [exact H|]. loc_sub Ec.
